@@ -81,7 +81,7 @@ def module_budget(mod, tier):
 
 def run_shard(mod, ctx, mon):
     """Run the module's workload for one shard, converting escapes into verdict material."""
-    before = common.shm_census()
+    common.track_shm()
     try:
         mod.run(ctx, mon)
     except StopRun:
@@ -108,8 +108,7 @@ def run_shard(mod, ctx, mon):
     import gc
 
     gc.collect()
-    after = common.shm_census()
-    leaked = sorted(after - before)
+    leaked = common.shm_created_alive()
     mon.extra(shm_segments_left_behind=len(leaked))
     if leaked and getattr(mod, "SHM_LEAK_IS_VIOLATION", False):
         try:
@@ -217,6 +216,7 @@ def main(argv=None):
         except Exception as exc:  # noqa: BLE001
             mon.inconclusive.append(f"import of sketchnu failed: {type(exc).__name__}: {exc}")
         else:
+            ctx.t0 = time.time()  # the time budget starts after the (possibly cold) JIT import
             run_shard(mod, ctx, mon)
         with open(opts["json_out"], "w") as fh:
             fh.write(jdump(mon.to_json()))
@@ -249,6 +249,20 @@ def main(argv=None):
                    "--shard", f"{s}/{nshards}", "--json-out", out, "--budget", str(budget)]
             log = open(os.path.join(tmpd, f"shard{s}.log"), "w")
             procs.append((s, out, log, subprocess.Popen(cmd, stdout=log, stderr=subprocess.STDOUT)))
+        # Numba's own bounds-check sanitizer: one extra shard re-runs the workload with NUMBA_BOUNDSCHECK=1 (separately
+        # compiled, separate cache directory); an out-of-range index inside a kernel then raises IndexError instead of
+        # silently reading or corrupting neighbouring memory, and surfaces as a violation of the property being driven.
+        bc_shard = None
+        if tier == "thorough" and getattr(mod, "BOUNDSCHECK", False) and os.environ.get("VERIF_BOUNDSCHECK", "1") == "1":
+            bc_shard = nshards
+            out = os.path.join(tmpd, f"shard{bc_shard}.json")
+            env = dict(os.environ, NUMBA_BOUNDSCHECK="1")
+            if env.get("NUMBA_CACHE_DIR"):
+                env["NUMBA_CACHE_DIR"] = env["NUMBA_CACHE_DIR"].rstrip("/") + "-boundscheck"
+            cmd = [sys.executable, "-X", "faulthandler", "-W", "ignore::SyntaxWarning", "-m", "vmon.cli", pid, tier,
+                   "--shard", f"{bc_shard}/{nshards}", "--json-out", out, "--budget", str(min(budget, 150.0))]
+            log = open(os.path.join(tmpd, f"shard{bc_shard}.log"), "w")
+            procs.append((bc_shard, out, log, subprocess.Popen(cmd, stdout=log, stderr=subprocess.STDOUT, env=env)))
         watchdog = budget * float(getattr(mod, "WATCHDOG_FACTOR", 4)) + 300
         for s, out, log, p in procs:
             left = max(5.0, t0 + watchdog - time.time())
@@ -269,7 +283,11 @@ def main(argv=None):
                     mon.inconclusive.append(f"shard {s}: exit {rc}: {tail[-600:]}")
                 continue
             with open(out) as fh:
-                mon.merge_json(json.load(fh))
+                j = json.load(fh)
+            if s == bc_shard:
+                mon.extra(numba_boundscheck_shard={"cases": j["n_cases"], "invariant_evaluations": j["evaluations"],
+                                                   "violations": len(j["violations"])})
+            mon.merge_json(j)
         import shutil
 
         shutil.rmtree(tmpd, ignore_errors=True)
